@@ -35,6 +35,10 @@ class Rng:
         return self.below(den) < num
     def bytes(self, n):
         return bytes(self.below(256) for _ in range(n))
+    def shuffle(self, xs):             # Fisher-Yates, in place
+        for i in range(len(xs) - 1, 0, -1):
+            j = self.below(i + 1)
+            xs[i], xs[j] = xs[j], xs[i]
     def fork(self, tag):
         h = hashlib.sha256(('%d/%s' % (self.s, tag)).encode()).digest()
         return Rng(int.from_bytes(h[:8], 'little'))
